@@ -111,3 +111,6 @@ Definition py_slice {A} (l : list A) (lo hi : option Z) : list A :=
 
 (* Python float modulo (sign of the divisor): a - b * floor(a / b) *)
 Definition py_mod (a b : Q) : Q := a - b * inject_Z (Qfloor (a / b)).
+
+Definition py_rotl {A} (l : list A) : list A :=
+  match l with [] => [] | x :: r => r ++ [x] end.
